@@ -32,7 +32,7 @@ from vlib import f2b, fs2b, b2fs
 from props import c01
 
 ID = "C02"
-GEN = ["Leaves", "Combinators", "Planar", "Bnaf", "JaxTransforms", "BnafGen", "TriangularGen"]
+GEN = ["Leaves", "Combinators", "Planar", "Bnaf", "JaxTransforms", "BnafGen", "TriangularGen", "NetGen"]
 RULE = ("log-det outputs (methods transform_and_log_det / inverse_and_log_det) of expression trees over generated leaves "
         "(Affine/Loc/Scale with both signs, Exp, SoftPlus, Tanh, LeakyTanh, RationalQuadraticSpline with perturbed raw parameters) "
         "under generated Chain/Invert, depth<=3, on boundary-directed inputs (interval ends, knots, ±max_val, tanh(max_val), ±1, 0, "
@@ -41,6 +41,11 @@ RULE = ("log-det outputs (methods transform_and_log_det / inverse_and_log_det) o
         "its parameters differ from the initialisation and the input is a boundary value or the object is a vector lifting with "
         "non-default parameters; distinct = distinct (tree, method, input) triples")
 TRUSTED = [
+    "Coupling / MaskedAutoregressive methods: GENERATED Gen/NetGen.lean (translator tools/py2lean/py2meth.py, typing sheet targets_net.py) over "
+    "the hand-written meanings of the library calls in Model/NetWorld.lean (hstack/concatenate = ++, slices = take/drop, reshape(…, (dim, -1)) = reshapeRows, "
+    "filter_vmap(transformer_constructor) + Vmap(in_axes=if_array(0)) = one scalar bijection per coordinate with SUMMED log-dets, lax.scan(f, init, None, length=n) "
+    "= n-fold iteration, traced x[i] clamps, .at[i].set drops out of range, conditioner / masked MLP = an abstract function) — proved equal to the hand models "
+    "(gen_coupling_eq_model, gen_maf_eq_model) and run against real objects by tools/props/netgen.py",
     "Lean 4.33 kernel; Mathlib v4.33 (HasDerivAt/HasFDerivAt, Real.log, Matrix.det); axioms propext, Classical.choice, Quot.sound",
     "py2lean translator + typing sheets tools/py2lean/targets_leaves.py, targets_comb.py (validated by this correspondence)",
     "Prelude/Jnp.lean specs of where/abs/sign/clip/searchsorted/getItem/sumElem (validated by this correspondence)",
@@ -219,6 +224,9 @@ def corr(c, tier, rng):
     # --- BlockAutoregressiveNetwork.transform_and_log_det AS THE CODE COMPUTES IT (Model/BnafLd.lean + generated logmatmulexp)
     from props import bnafld
     bnafld.corr_bnafld(c, tier, rng)
+    # --- the GENERATED transform_and_log_det / inverse_and_log_det of Coupling / MaskedAutoregressive (Gen/NetGen.lean) against real objects
+    from props import netgen
+    netgen.corr_gen(c, tier, rng, light=(tier == "quick"))
     oracle_ties(c, tier, rng)
 
 
